@@ -24,6 +24,7 @@ COMMIT = '1.2.840.10008.1.20.1'
 OUT = {'s': 0x0000, 'w': 0xB000, 'f': 0xA700}
 KINDS = ['a', 'b', 'big']
 PEND = [0xFF00, 0xFF01]
+PARTS = 6
 
 
 def cases_for(prop, tier):
@@ -31,7 +32,7 @@ def cases_for(prop, tier):
     if prop == 'C16':
         for k in range(0, 5 if thorough else 4):
             for style in ('fresh', 'reused', 'intstatus'):
-                if k == 0 and style != 'fresh':
+                if style != 'fresh' and (k == 0 or (not thorough and k != 2)):
                     continue
                 yield {'stack': 'find', 'k': k, 'style': style, 'maxlen': 16384, 'err': False, 'sop': FIND}
         yield {'stack': 'find', 'k': 3, 'style': 'fresh', 'maxlen': 128, 'err': False, 'sop': FIND}
@@ -39,14 +40,16 @@ def cases_for(prop, tier):
         yield {'stack': 'find', 'k': 2, 'style': 'fresh', 'maxlen': 16384, 'err': False, 'sop': MWL}
         yield {'stack': 'find', 'k': 2, 'style': 'fresh', 'maxlen': 16384, 'err': False, 'sop': FIND, 'wrapper': True}
         STUDY = '1.2.840.10008.5.1.4.1.2.2.1'
-        for roots in ([(FIND, 'SCU'), (STUDY, 'SCU')], [(STUDY, 'SCU'), (None, 'SCU')], [(None, 'SCU'), (STUDY, 'OTHER'), (FIND, 'OTHER')]):
+        for roots in ([(FIND, 'SCU'), (STUDY, 'SCU')], [(STUDY, 'SCU'), (None, 'SCU')]) + (([(None, 'SCU'), (STUDY, 'OTHER'), (FIND, 'OTHER')],) if thorough else ()):
             yield {'stack': 'find', 'k': 2, 'style': 'fresh', 'maxlen': 16384, 'err': False, 'sop': FIND, 'wrapper': True, 'roots': roots,
                    'count_all': True}
     elif prop == 'C19':
-        vecs = ['', 's', 'f', 'ss', 'sw', 'fs', 'sws', 'ssf'] + (['ssss', 'wfsw'] if thorough else [])
+        vecs = ['', 's', 'fs', 'sws'] + (['f', 'ss', 'sw', 'ssf', 'ssss', 'wfsw'] if thorough else [])
         for v in vecs:
             yield {'stack': 'move', 'vec': v}
-        for v in (['', 's', 'ss', 'sws'] + (['ssss'] if thorough else [])):
+        yield {'stack': 'move', 'vec': 'ss', 'dest_fault': 'hang-after-last'}
+        yield {'stack': 'move', 'vec': 's' if not thorough else 'sw', 'clients': 2}
+        for v in (['', 's', 'sws'] + (['ss', 'sf', 'ssss'] if thorough else [])):
             yield {'stack': 'get', 'vec': v, 'pending': True}
         yield {'stack': 'get', 'vec': 'ss', 'pending': False}
     elif prop == 'C17':
@@ -135,38 +138,56 @@ def make(case):
 
         elif kind == 'move':
             vec = case['vec']
-            insts = [dsgen.make(KINDS[i % 3], i, sop_class=CT, inst='1.2.9.%d' % i) for i in range(len(vec))]
+            letters = 'AB'[:case.get('clients', 1)]
+            sets = {L: [dsgen.make(KINDS[i % 3], i, sop_class=CT, inst='1.2.9.%d.%d' % (j + 1, i)) for i in range(len(vec))]
+                    for j, L in enumerate(letters)}
+            outcome = {str(d.SOPInstanceUID): OUT[vec[i]] for L in letters for i, d in enumerate(sets[L])}
+            last = {str(sets[L][-1].SOPInstanceUID) for L in letters if sets[L]}
 
             def dest_store(asce, ctx, msg):
-                i = len([x for x in log if x[0] == 'dest-store'])
-                log.append(('dest-store', str(msg.affected_sop_instance_uid), msg.data_set))
+                u = str(msg.affected_sop_instance_uid)
+                log.append(('dest-store', u, msg.data_set))
                 rsp = dimsemessages.CStoreRSPMessage()
                 rsp.message_id_being_responded_to = msg.message_id
                 rsp.affected_sop_instance_uid = msg.affected_sop_instance_uid
                 rsp.sop_class_uid = msg.sop_class_uid
-                rsp.status = OUT[vec[i]] if i < len(vec) else 0xC000
+                rsp.status = outcome.get(u, 0xC000)
                 asce.send(rsp, ctx.id)
+                if case.get('dest_fault') == 'hang-after-last' and u in last:
+                    # the destination application hangs: the release of the sub-association is never confirmed
+                    e3.cur().sleep(40)
             dest_store.sop_classes = [CT]
             dest = assoc.make_ae('DEST', [IMPL], 16384, [dest_store])
             net.listen(('dest', 104), e3.serve_ae(dest))
 
             class MoveAE(applicationentity.AE):
                 def on_receive_move(self, context, ds, destination):
-                    log.append(('move-rq', str(destination)))
-                    return {'aet': 'DEST', 'address': 'dest', 'port': 104}, len(insts), iter(insts)
+                    L = str(ds.PatientID)
+                    log.append(('move-rq', L, str(destination)))
+                    return {'aet': 'DEST', 'address': 'dest', 'port': 104}, len(sets[L]), iter(sets[L])
             qr = assoc.make_ae('QR', [IMPL], 16384, [sopclass.qr_move_scp], cls=MoveAE)
             qr.add_scu(sopclass.storage_scu, [CT])
             net.listen(('srv', 104), e3.serve_ae(qr))
-            cae = applicationentity.ClientAE('SCU', [IMPL], 16384).add_scu(sopclass.qr_move_scu)
-
-            def body(asce):
-                got = []
-                results['move'] = got
-                for status, rsp in asce.get_scu(MOVE)(dsgen.make('query'), 'DEST', 31):
-                    got.append((int(status), rsp.num_of_remaining_sub_ops, rsp.num_of_completed_sub_ops, rsp.num_of_failed_sub_ops,
-                                rsp.num_of_warning_sub_ops, rsp.message_id_being_responded_to))
-            results['insts'] = [(str(d.SOPInstanceUID), dsgen.enc(d, IMPL)) for d in insts]
-            sched.spawn(run_client(body, cae, {'aet': 'QR', 'address': 'srv', 'port': 104}), 'client')
+            results['move'] = {}
+            results['insts'] = {L: [(str(d.SOPInstanceUID), dsgen.enc(d, IMPL)) for d in sets[L]] for L in letters}
+            results['clients'] = {}
+            for j, L in enumerate(letters):
+                def client(L=L, j=j):
+                    cae = applicationentity.ClientAE('SCU' + L, [IMPL], 16384).add_scu(sopclass.qr_move_scu)
+                    got = []
+                    results['move'][L] = got
+                    q = dsgen.make('query')
+                    q.PatientID = L
+                    try:
+                        with cae.request_association({'aet': 'QR', 'address': 'srv', 'port': 104}) as asce:
+                            for status, rsp in asce.get_scu(MOVE)(q, 'DEST', 31 + j):
+                                got.append((int(status), rsp.num_of_remaining_sub_ops, rsp.num_of_completed_sub_ops, rsp.num_of_failed_sub_ops,
+                                            rsp.num_of_warning_sub_ops, rsp.message_id_being_responded_to))
+                        results['clients'][L] = 'ok'
+                    except exceptions.NetDICOMError as exc:
+                        results['clients'][L] = '%s: %s' % (type(exc).__name__, exc)
+                sched.spawn(client, 'client' + ('' if len(letters) == 1 else '-' + L))
+            results['client'] = 'ok'   # judged per client below
 
         elif kind == 'get':
             vec = case['vec']
@@ -348,25 +369,32 @@ def judge(case, out):
     elif kind == 'move':
         vec = case['vec']
         n = len(vec)
-        got = r.get('move', [])
-        exp = []
-        for j in range(1, n + 1):
-            exp.append((0xFF00, n - j, j, vec[:j].count('f'), vec[:j].count('w'), 31))
-        stores = [x for x in log if x[0] == 'dest-store']
-        if [(u, d) for _, u, d in stores] != r['insts']:
-            viol.append((sig + ':sub-operations', 'destination received %r, application supplied %r (%s)' % (
-                [u for _, u, _ in stores], [u for u, _ in r['insts']], where)))
-        pend, tail = got[:-1], got[-1:]
-        # "k counted as performed": completed == k, or completed + failed + warning == k (both conventions exist)
-        okp = len(pend) == n and all(p[0] == 0xFF00 and p[1] == e[1] and p[5] == 31 and p[3] == e[3] and p[4] == e[4] and
-                                     (p[2] == e[2] or p[2] + p[3] + p[4] == e[2]) for p, e in zip(pend, exp))
-        if not okp:
-            viol.append((sig + ':progress', 'pending responses (status, remaining, completed, failed, warning, msg id) %r, expected %r (%s)' % (
-                pend, exp, where)))
-        if len(tail) != 1 or tail[0][0] in PEND or tail[0][1] not in (0, None) or tail[0][5] != 31:
-            viol.append((sig + ':final', 'final response %r (%s)' % (tail, where)))
-        elif n and not (tail[0][2] == n or tail[0][2] + tail[0][3] + tail[0][4] == n):
-            viol.append((sig + ':final-counters', 'final response %r after %d sub-operations (%s)' % (tail, n, where)))
+        for j, L in enumerate('AB'[:case.get('clients', 1)]):
+            tag = '' if case.get('clients', 1) == 1 else ' [client %s]' % L
+            mid = 31 + j
+            if r['clients'].get(L) != 'ok' and not case.get('dest_fault'):
+                viol.append((sig + ':client-error', 'the requesting application got %r%s (%s)' % (r['clients'].get(L), tag, where)))
+                continue
+            got = r['move'].get(L, [])
+            exp = []
+            for k in range(1, n + 1):
+                exp.append((0xFF00, n - k, k, vec[:k].count('f'), vec[:k].count('w'), mid))
+            mine = {u for u, _ in r['insts'][L]}
+            stores = [x for x in log if x[0] == 'dest-store' and x[1] in mine]
+            if [(u, d) for _, u, d in stores] != r['insts'][L]:
+                viol.append((sig + ':sub-operations', 'destination received %r, application supplied %r%s (%s)' % (
+                    [u for _, u, _ in stores], [u for u, _ in r['insts'][L]], tag, where)))
+            pend, tail = got[:-1], got[-1:]
+            # "k counted as performed": completed == k, or completed + failed + warning == k (both conventions exist)
+            okp = len(pend) == n and all(p[0] == 0xFF00 and p[1] == e[1] and p[5] == mid and p[3] == e[3] and p[4] == e[4] and
+                                         (p[2] == e[2] or p[2] + p[3] + p[4] == e[2]) for p, e in zip(pend, exp))
+            if len(tail) != 1 or tail[0][0] in PEND or tail[0][1] not in (0, None) or tail[0][5] != mid:
+                viol.append((sig + ':final', 'responses %r: no single final response%s (%s)' % (got, tag, where)))
+            elif not okp:
+                viol.append((sig + ':progress', 'pending responses (status, remaining, completed, failed, warning, msg id) %r, expected %r%s (%s)' % (
+                    pend, exp, tag, where)))
+            elif n and not (tail[0][2] == n or tail[0][2] + tail[0][3] + tail[0][4] == n):
+                viol.append((sig + ':final-counters', 'final response %r after %d sub-operations%s (%s)' % (tail, n, tag, where)))
     elif kind == 'get':
         vec = case['vec']
         n = len(vec)
@@ -436,16 +464,30 @@ def run_case(case, prefix_sig=''):
             if v and first[0] is None:
                 first[0] = (list(out.choices), list(low))
             viol.extend(v)
-        st = e3.explore(sc, bound, on, max_exec=max_exec, count_all=count_all, low=low, fine=True)
-        stats_tot['schedules'] += st['executions']
-        stats_tot['decisions'] += st['decisions']
-        stats_tot['capped'] = stats_tot['capped'] or st['capped']
+        part = case.get('part')     # (p, P): this call explores the sub-trees p, p+P, ... hanging off the default execution
+        if part is None:
+            sts = [e3.explore(sc, bound, on, max_exec=max_exec, count_all=count_all, low=low, fine=True)]
+        else:
+            out0, roots = e3.first_level(sc, bound, count_all=count_all, low=low, fine=True)
+            sts = []
+            if part[0] == 0:
+                on(out0)
+                sts.append({'executions': 1, 'decisions': len(out0.points), 'capped': False})
+            for root in roots[part[0]::part[1]]:
+                sts.append(e3.explore(sc, bound, on, max_exec=max_exec, count_all=count_all, low=low, fine=True, root=root))
+        for st in sts:
+            stats_tot['schedules'] += st['executions']
+            stats_tot['decisions'] += st['decisions']
+            stats_tot['capped'] = stats_tot['capped'] or st['capped']
         stats_tot['families'] += 1
     base = e3.execute(sc, [], fine=True)
     names = [t[0] for t in base.threads]
-    runfam((), case.get('bound', 1), case.get('count_all', False), case.get('max_exec', 4000))
-    for nm in names:
-        runfam((nm,), case.get('dev', 0), True, 2000)
+    fam = case.get('family')        # None: all families in this call; 0: the preemption-bounded one; i>0: starve thread i-1
+    if fam in (None, 0):
+        runfam((), case.get('bound', 1), case.get('count_all', False), case.get('max_exec', 4000))
+    for i, nm in enumerate(names):
+        if fam is None or fam == i + 1:
+            runfam((nm,), case.get('dev', 0), True, 2000)
     dedup = {}
     for s, m in viol:
         dedup.setdefault(prefix_sig + s, m)
@@ -465,11 +507,18 @@ def extend(rep, prop, tier, seed, module):
         c = dict(c)
         c['bound'] = 2 if tier == 'thorough' else 1
         c['dev'] = 1 if tier == 'thorough' else 0
-        if c['stack'] != 'find' or c.get('count_all'):
-            # three associations, or long two-way traffic on one: the free switches alone explode - bound every deviation from the default order
+        chess = c['stack'] == 'find' and not c.get('count_all')
+        if not chess:
+            # free switches (choices when the running thread blocks) explode with three associations or long two-way traffic:
+            # there every deviation from the default order counts
             c['count_all'] = True
             c['bound'] = 2 if tier == 'thorough' else 1
-        cs.append(c)
+        # one task per schedule family (family 0 = preemption-bounded, i = starve the i-th thread of the default run)
+        # and the preemption-bounded family is split into PARTS slices of the sub-trees hanging off the default execution
+        for part in range(PARTS):
+            cs.append(dict(c, family=0, part=(part, PARTS)))
+        for fam in range(1, 17):
+            cs.append(dict(c, family=fam))
     for res in common.pmap(module, 'run_case', cs, chunk=1):
         for s, m in res['viol']:
             rep.add(common.Viol(s, m, res['case']))
@@ -478,10 +527,10 @@ def extend(rep, prop, tier, seed, module):
         tot['decisions'] += st.get('decisions', 0)
         tot['capped'] += 1 if st.get('capped') else 0
         tot['outcomes'] = max(tot['outcomes'], st.get('distinct_outcomes', 0))
-        tot['cases'] += 1
+        tot['cases'] += 1 if (res.get('stats', {}).get('families')) else 0
     rep.coverage['part2_whole_stack'] = {
         'what': 'real service callables on real associations with real provider threads over the simulated network, schedules enumerated',
-        'cases': tot['cases'], 'schedules': tot['schedules'], 'scheduling_decisions': tot['decisions'],
+        'scenario_x_schedule_family_runs': tot['cases'], 'schedules': tot['schedules'], 'scheduling_decisions': tot['decisions'],
         'families': 'preemption bound %d (CHESS; all deviations counted for 3-association scenarios) + one starvation schedule per thread%s' % (
             2 if tier == 'thorough' else 1, ' with 1 deviation' if tier == 'thorough' else ''),
         'cases_that_hit_the_execution_cap': tot['capped'], 'max_distinct_outcomes_per_case': tot['outcomes']}
